@@ -114,6 +114,27 @@ func brokenGo(r *sim.Rng, valid []byte, pkg string) ([]byte, string) {
 	return append(append([]byte(nil), head...), body...), kind
 }
 
+// staleImports returns the canonical output with the import path of the
+// hooks package replaced by that of the same-named package elsewhere in the
+// module (nil when the world has no such twin or the output does not import it).
+// It is valid Go of the same package: the result of an earlier run made when
+// the package lived elsewhere.
+func staleImports(world *sim.WorldSpec, out []byte) []byte {
+	if _, ok := world.Files["mod/legacy/hooks/hooks.go"]; !ok || len(out) == 0 {
+		return nil
+	}
+	// rewrite the named import only; the blank import comes from the setup file
+	re := regexp.MustCompile(`(?m)^(\s*)"example\.com/w/[\w/]+/hooks"$`)
+	if !re.Match(out) {
+		return nil
+	}
+	alt := re.ReplaceAll(out, []byte(`${1}"example.com/w/legacy/hooks"`))
+	if bytes.Equal(alt, out) {
+		return nil
+	}
+	return alt
+}
+
 func pickK(r *sim.Rng, L int) int {
 	if L <= 0 {
 		return 0
@@ -192,7 +213,7 @@ func genC12(cfg Config, ws *WorldSet, i int) C12Case {
 			iv := mkInv()
 			iv.Dry = false
 			s := Step{Op: "crashrun", Inv: iv, Bin: "sim", Plan: &sim.Plan{Markers: genMarkers(r, 4),
-				Faults: []sim.Fault{{Op: "WriteFile", Path: iv.OutPath, Kind: kind, K: pickK(r, L)}}},
+				Faults: []sim.Fault{{Op: "OUTPUT-OPEN", Path: iv.OutPath, Kind: kind, K: pickK(r, L)}, {Op: "OUTPUT-COMMIT", Path: iv.OutPath, Kind: sim.Pick(r, []string{"crash_before", "crash_after"})}}},
 				Note: sim.Pick(r, []string{"as-written", "as-written", "zero-filled-tail", "cut-to-4096", "write-lost"})}
 			if kind == "crash_before_close" {
 				s.Plan.Faults[0].K = -1
@@ -203,13 +224,18 @@ func genC12(cfg Config, ws *WorldSet, i int) C12Case {
 		case 6:
 			steps = append(steps, Step{Op: "zerotail", Path: outPath, K: pickK(r, L), Note: "zero-filled-tail"})
 		case 7:
+			if alt := staleImports(world, canon.Out); alt != nil && r.Bool() {
+				// a valid older result whose import block names the package's former location
+				steps = append(steps, Step{Op: "write", Path: outPath, Data: alt, Note: "stale-output:other-import-path"})
+				break
+			}
 			data, kind := brokenGo(r, canon.Out, pkg)
 			steps = append(steps, Step{Op: "write", Path: outPath, Data: data, Note: "broken-go:" + kind})
 		case 8:
 			iv := mkInv()
 			iv.Dry = false
 			steps = append(steps, Step{Op: "failwrite", Inv: iv, Bin: "sim", Plan: &sim.Plan{Markers: genMarkers(r, 4),
-				Faults: []sim.Fault{{Op: "WriteFile", Path: iv.OutPath, Kind: "short_write", Errno: sim.Pick(r, []string{"ENOSPC", "EIO"}), K: pickK(r, L)}}},
+				Faults: []sim.Fault{{Op: "OUTPUT-OPEN", Path: iv.OutPath, Kind: "short_write", Errno: sim.Pick(r, []string{"ENOSPC", "EIO"}), K: pickK(r, L)}}},
 				Note: "failed-write"})
 		}
 	}
